@@ -9,7 +9,6 @@ NA = {
     'C13': 'quantified over process schedules; the family is silent on concurrency, and the mechanism is async over shared Rc<RefCell> state',
     'C14': 'quantified over schedules; the only object-level kernel (FIFO buffer) has 512/1024-byte constants and VecDeque byte loops beyond Kani\'s reach and outside Verus\'s subset',
     'C15': 'all-interleavings / fairness property of an Rc<RefCell> run queue with a raw waker vtable; with dyn Future inputs nothing is symbolic, and liveness is not decided by contracts',
-    'C17': 'substitution lives inside the async lexer/parser restart protocol; the one synchronous helper\'s contract does not decide termination or eligibility',
     'C19': 'differential statement between the simulator and a real kernel; one side has no code to specify',
 }
 PENDING = 'contract units for this property are not built yet in this revision of /verif (planned in DESIGN.md section 4); not claimed until its check exists'
@@ -115,6 +114,10 @@ TECH['C18'] = 'contract-based deductive verification (Verus, Z3) of FdReader2::n
 LEVEL_TEXT['C02'] = 'Two kernels only. Unbounded deductive proof (Verus) that the command search resolves a name in the POSIX order (special built-in, function, other built-in, external utility; a slash means a path) and settles the path and the not-found / unusable errors as documented, and that break n / continue n leave min(n, enclosing loops) loops or fail outside a loop; bounded Kani check (stacks of <= 3-4 frames) of Stack::loop_count, the function that counts the enclosing loops of the current execution environment. The statement as a whole (which commands run, in which order, with which $?) is whole-interpreter async code and is not decided; level other because of that and of the bounded part.'
 NOTE['C02'] = 'Kernels only (command search order; break/continue levels). Trusted: Verus/Z3, Kani/CBMC; ghost views on the environment traits; search_path assumed; loop_count assumed in Verus and bounded-checked in Kani. Not covered: all executors (and-or, pipelines, compound commands, functions, return/exit), decoding of diverts by loops, Env::builtin, PATH walking.'
 TECH['C02'] = 'contract-based deductive verification (Verus, Z3) of classify / search / resolve_builtin and of break/continue run + bounded Kani harness-encoded contract of Stack::loop_count on the real crate'
+
+LEVEL_TEXT['C17'] = 'Eligibility kernel only. Unbounded deductive proof (Verus) that Parser::substitute_alias replaces exactly the eligible tokens (unquoted literal word token; alias of that name exists; not already inside its own replacement; command position, global alias or after a blank-ending alias value) and that the recursion guard Source::is_alias_for is membership in the chain of alias origins, for chains of every depth. Termination and the resulting token sequence depend on the lexer splice and the async restart protocol and are not decided; level other because the claim is a kernel.'
+NOTE['C17'] = 'Eligibility kernel only. Trusted: Verus/Z3; ghost-map model of the glossary; reduced models of Word / Location / Source; lexer calls external_body. Not covered: LexerCore::substitute_alias (splice), is_after_blank_ending_alias, restart protocol, keyword recognition in replacement text, alias/unalias built-ins.'
+TECH['C17'] = 'contract-based deductive verification (Verus, Z3) of Parser::substitute_alias (eligibility as an iff) and Source::is_alias_for (structural recursion)'
 
 
 def main():
